@@ -523,7 +523,8 @@ void vk_run_case(vk::Choice& c) {
   static std::vector<int> subset; static bool subset_done = false;
   if (!subset_done) {
     subset_done = true; long rk = cx.arg("require-stage") == "type_erase" ? (long)K_TE : -1;
-    for (int i = 0; i < NPIPES; ++i) { Desc t; PIPES[i].desc(t); bool has = rk < 0; for (int k : t.stages) if (k == rk) has = true; if (has) subset.push_back(i); }
+    const bool cancel = cx.arg("require-stage") == "cancel";   // C04: the pipelines with a cancellation-aware adaptor (take_until, stop_immediately)
+    for (int i = 0; i < NPIPES; ++i) { Desc t; PIPES[i].desc(t); bool has = rk < 0 && !cancel; for (int k : t.stages) if (k == rk || (cancel && (k == K_TU || k == K_SI))) has = true; if (has) subset.push_back(i); }
   }
   int pi = forced >= 0 ? forced % NPIPES : subset[c.upto((uint32_t)subset.size())];
   Desc d; PIPES[pi].desc(d);
